@@ -395,7 +395,7 @@ def arena_suite(tier, cfgs, extra="", need=()):
                 if src == "virtual":
                     args = _shrink(f"--src virtual --cached {cached} --storage 12288 --L {min(L, 3)} --B 2 --arena 32768", extra, tier).replace(" --twin 0", "")
                 else:
-                    args = _shrink(f"--src {src} --cached {cached} --bs 64 --storage 192 --L {L} --B {B} --arena 2048", extra, tier).replace(" --twin 0", "")
+                    args = _shrink(f"--src {src} --cached {cached} --bs 64 --storage 128 --L {L} --B {B} --arena 2048", extra, tier).replace(" --twin 0", "")
                 nd = ("reused_cached_block",) if cached else ("acquired_fresh_block",)
                 out.append(J("h_arena", cfg, f"{args} {extra}".strip(), name=f"arena/{src}/{'cached' if cached else 'uncached'}[{cfg}] {extra}".strip(),
                              need=nd + tuple(need), moves=_mv(extra)))
@@ -461,6 +461,8 @@ def check_C05(prop, tier, only):
 def check_C06(prop, tier, only):
     c = cfgs_for(tier)
     jobs = stack_suite(tier, c, extra="--tries 1") + stack_suite(tier, c[:1], extra="--moves 2")
+    for j in jobs:
+        j["own"] = ["M-upstream"]  # "blocks freed by unwinding are kept for reuse until shrink_to_fit": block/cache accounting of the stack
     return run_explore_check(prop, tier, jobs, only, note=NOTE_BFS +
                              "memory_stack with mark / unwind(j) for every valid nested j / shrink_to_fit / move; M-unwind: capacity restored, top()==marker, "
                              "markers totally ordered with consistent operators, unwind never touches the upstream, shrink_to_fit empties the cache, and a twin "
